@@ -706,7 +706,27 @@ pub fn silence_panics() {
 }
 
 /// Run `body` under `sched` with `config`, everything recorded by a primary Recorder.
+///
+/// Every Shuttle run is executed on its own, short-lived OS thread: a run that fails while a task
+/// is suspended in the middle of unwinding leaves `std::thread::panicking()` true on the thread
+/// that called `Runner::run` (known finding F23), and everything that runs on that thread
+/// afterwards misbehaves. A fresh thread per run keeps one case from contaminating the next.
 pub fn run_recorded<S, F>(sched: S, config: shuttle::Config, body: F) -> (Ending, RunTrace)
+where
+    S: Scheduler + Send + 'static,
+    F: Fn() + Send + Sync + 'static,
+{
+    silence_panics();
+    std::thread::Builder::new()
+        .name("vrun".into())
+        .spawn(move || run_recorded_here(sched, config, body))
+        .expect("spawn run thread")
+        .join()
+        .expect("run thread panicked outside catch_unwind")
+}
+
+/// Same, on the calling thread (the scheduler need not be Send).
+pub fn run_recorded_here<S, F>(sched: S, config: shuttle::Config, body: F) -> (Ending, RunTrace)
 where
     S: Scheduler + 'static,
     F: Fn() + Send + Sync + 'static,
@@ -723,9 +743,15 @@ where
         Ok(n) => Ending::Returned(n),
         Err(p) => Ending::Panicked(payload_to_string(&*p)),
     };
-    let rt = out.lock().unwrap().clone();
+    let rt = out.lock().unwrap_or_else(|e| e.into_inner()).clone();
+    if std::thread::panicking() {
+        TAINTED_RUNS.fetch_add(1, std::sync::atomic::Ordering::SeqCst);
+    }
     (ending, rt)
 }
+
+/// number of runs after which the run thread was left with a non-zero panic count (F23)
+pub static TAINTED_RUNS: std::sync::atomic::AtomicU64 = std::sync::atomic::AtomicU64::new(0);
 
 pub fn quiet_config() -> shuttle::Config {
     let mut c = shuttle::Config::new();
